@@ -570,6 +570,10 @@ func (e *Enc) evalIdent(name string, ctx *specCtx) *Val {
 	if obj := e.lookupPkgObject(ctx.pkg, "", name); obj != nil {
 		return e.objectValue(obj, ctx)
 	}
+	if nn := e.renamedLocal(name); nn != "" {
+		e.note("contract name %q: the variable is now called %q (same declaration ordinal and type); renamed local followed", name, nn)
+		return e.evalIdent(nn, ctx)
+	}
 	e.fail("unknown identifier %q", name)
 	return nil
 }
